@@ -26,12 +26,14 @@ MODULE = 'PyTough.Props.C03'
 TARGETS = ['PyTough.Props.C03', 'drv_c03']
 THEOREMS = ['Props.C03.' + t for t in [
     'table_is_current', 'geo_roundtrip', 'reread_unique', 'header_preserved', 'nodes_preserved', 'columns_preserved',
-    'connections_preserved', 'layers_preserved', 'surfaces_preserved', 'wells_preserved', 'geo_write_fixpoint_partial',
+    'connections_preserved', 'layers_preserved', 'surfaces_preserved', 'wells_preserved', 'names_lists_preserved',
+    'geo_write_fixpoint_partial',
     'rounding_idempotent', 'feet_roundtrip', 'rjust_names_safe', 'left_justified_name_changes',
     'layer_centre_zero_lost', 'second_file_differs']]
 LEVEL_TEXT = ('Proof: Lean theorems about an executable model of mulgrid.write / mulgrid(file): for every well-formed geometry (decidable WF = the '
               "property's quantifier: right-justified names, options in range, values within the 10-column limit, >= 1 layer) read(write g) = canonGeo g "
-              '(geo_roundtrip, full strength) with corollaries for header options, nodes, columns, connections, layers, surfaces, wells; FEET files hold '
+              '(geo_roundtrip, full strength) with corollaries for header options, nodes, columns, connections, layers, surfaces, wells; block and connection '
+              'name lists identical when rounding moves no surface across a layer boundary (names_lists_preserved, decidable StableSurfaces); FEET files hold '
               'feet and re-read to metres (feet_roundtrip); right-justified names are inverse-safe (rjust_names_safe) and a left-justified one is not. '
               'PARTIAL: the layer-centre clause and the byte-for-byte second write carry the decidable hypothesis LayerCentresKept (KNOWN FINDING '
               'layer-centre-zero-recomputed: proved necessary by the model witnesses layer_centre_zero_lost / second_file_differs, replayed on the real code); '
@@ -40,8 +42,7 @@ LEVEL_TEXT = ('Proof: Lean theorems about an executable model of mulgrid.write /
               'correspondence on generated and shipped geometries.')
 LEVEL_NOTE = ('Trusted: Lean kernel (+propext, Classical.choice, Quot.sound); hand-written Model/GeoFile.lean and Model/Fixed.lean (tied by correspondence); '
               'A-float (exact decimals/rationals in the model; double rounding of float(), x*0.3048, x/0.3048 outside); name-length/unit-scale tables hand-copied. '
-              'Not proved: identity of the derived block/connection name lists (evaluated by the oracle and the read facet under StableSurfaces); '
-              'closeness of roundE to its argument (C02 proves it for the record layer).')
+              'Not proved: closeness of roundE to its argument (C02 proves it for the record layer).')
 TECHNIQUE = ('Lean 4 proof over an executable model of the geometry file reader/writer (exact decimals and rationals) + '
              'byte-for-byte / canonical-dump correspondence with the real mulgrid.write / mulgrid(file) + direct round-trip oracle')
 ASSUMPTIONS = [
@@ -778,7 +779,7 @@ def run(ctx, only_oracle=False, n=None, seed_shift=0):
     fcan = res.facet('geo_canon')
     hyp_wf = res.hyp.setdefault('WF g (hypothesis of geo_roundtrip and its corollaries)', [0, 0])
     hyp_lck = res.hyp.setdefault('LayerCentresKept g', [0, 0])
-    hyp_st = res.hyp.setdefault('StableSurfaces g (name lists compared by the oracle only then)', [0, 0])
+    hyp_st = res.hyp.setdefault('StableSurfaces g (hypothesis of names_lists_preserved)', [0, 0])
     hyp_sz = res.hyp.setdefault('SizesStable g (hypothesis of geo_write_fixpoint_partial)', [0, 0])
     if n is None: n = ctx.n(70, 1500)
     rcs = recipes(ctx, n) if not seed_shift else [gen_recipe(ctx.rng('search%d' % seed_shift), True, i) for i in range(n)]
